@@ -22,6 +22,34 @@ theorem const_queue : Gen.udphopPacketQueueSize = 1024 := by decide
 theorem const_buffer : Gen.udphopUdpBufferSize = 2048 := by decide
 theorem const_default_interval : Gen.udphopDefaultHopIntervalNs = 30 * 1000000000 := by decide
 
+/-! ### obligations on the regenerated lock-region facts (go/ast over conn.go, see
+    harness/extras/verifh/c19_facts.go).  They tie the atomic steps of Hy.Model.Hop to the
+    source: value = held*100 + region with held 2 = connMutex.Lock, 1 = RLock; 1000 = no lock.
+    A "lock narrowing" of hop (closed tested, or ListenUDPFunc called, outside the write-locked
+    region that swaps the sockets) changes these numbers and the build fails. -/
+
+/-- hop(): the `closed` test, the ListenUDPFunc() call, prevConn.Close() and the assignments
+    of prevConn/currentConn are all inside the SAME write-locked region — the only lock region
+    of the function (one Lock + one deferred Unlock, none nested). -/
+theorem hop_is_one_write_locked_region :
+    Gen.udphopFactsParsed = 1 ∧
+    Gen.udphopHopClosedRead = 201 ∧ Gen.udphopHopListen = 201 ∧ Gen.udphopHopSockClose = 201 ∧
+    Gen.udphopHopSwap = 201 ∧ Gen.udphopHopLockOps = 2 ∧ Gen.udphopHopLockNested = 0 := by decide
+
+/-- Close(): the double-close test, `closed = true`, closing both sockets and close(closeChan)
+    are inside one write-locked region on the same mutex. -/
+theorem close_is_one_write_locked_region :
+    Gen.udphopCloseClosedRead = 201 ∧ Gen.udphopCloseClosedWrite = 201 ∧
+    Gen.udphopCloseSockClose = 201 ∧ Gen.udphopCloseChanClose = 201 ∧
+    Gen.udphopCloseLockOps = 2 ∧ Gen.udphopCloseLockNested = 0 := by decide
+
+/-- WriteTo(): the `closed` test and the write on currentConn are inside one locked region
+    (read lock suffices: hop and Close take the write lock). -/
+theorem writeTo_is_one_locked_region :
+    (Gen.udphopWriteToClosedRead = 101 ∨ Gen.udphopWriteToClosedRead = 201) ∧
+    Gen.udphopWriteToSockWrite = Gen.udphopWriteToClosedRead ∧
+    Gen.udphopWriteToLockOps = 2 ∧ Gen.udphopWriteToLockNested = 0 := by decide
+
 /-! ## Port expressions -/
 
 /-- `denotes`: whatever `ParsePortUnion` returns for a string contains exactly the union of
